@@ -8,6 +8,9 @@ pub fn run(ctx: &Ctx) {
     ctx.set_exhaustive(false);
     let n = ctx.tier.pick(400_000u32, 6_000_000u32);
     run_forms_n(ctx, FormSet::Addressing, n, "Addressing");
+    if ctx.tier == Tier::Thorough {
+        crate::fuzzrun::exec_campaign(ctx, &["mov", "lea", "xchg", "add", "sub", "xor", "or", "not"], &[]);
+    }
     for c in [
         "shape/direct", "shape/indirect", "shape/based", "shape/indexed", "shape/based-indexed",
         "override/none", "override/es", "override/cs", "override/ss", "override/ds",
